@@ -918,6 +918,8 @@ class Fn:
 
         def after(env_):
             return self.stmts(rest, tl, env_, ctx)
+        if k == "item":
+            return after(env)
         if k == "cfg":
             # accepted only when, with the feature on or off, the result is the same: a block of `tracing::Span::current().record(..)`
             inner = s[2]
@@ -2072,6 +2074,32 @@ def functions():
         return "Definition g_fingerprint_path (lstat : option bool) (link_target file_content : option (list Z)) : option (fingerprint D) :=\n  %s." % text
     out.append(("fingerprint_path", "src/bin/copia/meta.rs fingerprint_path", None, t_fingerprint_path))
 
+    def t_staging_name():
+        src = read("src/bin/copia/serve.rs")
+        params, ret, body = R.find_fn(src, "create_staging", None)
+        if [n for n, _ in params] != ["dst"]:
+            raise Unsupported("signature of create_staging is %s" % params)
+        found = []
+        def walk(n):
+            if isinstance(n, tuple) and n and n[0] == "block":
+                ss = list(n[1])
+                for i in range(len(ss) - 1):
+                    if ss[i][0] == "let" and ss[i][1] == ("pbind", "s") and ss[i + 1][0] == "expr" and ss[i + 1][1][0] == "mcall" and ss[i + 1][1][1] == ("path", ["s"]) and ss[i + 1][1][2] == "push":
+                        found.append(("block", [ss[i], ss[i + 1]], ("path", ["s"])))
+            if isinstance(n, (list, tuple)):
+                for c in n:
+                    walk(c)
+        walk(body)
+        if len(found) != 1:
+            raise Unsupported("create_staging: `let mut s = dst.as_os_str().to_owned(); s.push(format!(..));` not found")
+        spec = dict(format_bytes={"x": "hexz {0}"}, format_int="dec {0}", updates={"s.push": "{0} ++ {1}"},
+                    calls={"std::process::id": ("pid", "u32"), ".fetch_add": ("seq (* {0} {1} {2} *)", "u64")},
+                    consts={"Ordering::Relaxed": ("tt", "Ordering"), "SEQ": ("tt", "Atomic")})
+        fn = Fn(spec)
+        text = fn.tail(found[0], {"dst": "Path", "nanos": "u128"}, Ctx(val=(lambda x: x), ret=None, fall=None))
+        return "Definition g_staging_name (dst : list Z) (pid nanos seq : Z) : list Z :=\n  %s." % text
+    out.append(("staging_name", "src/bin/copia/serve.rs create_staging: the staging name", None, t_staging_name))
+
     def t_dvalidate():
         src = read("src/delta.rs")
         spec = dict(fields={("Delta", "ops"): ("(d_ops _ {0})", "Vec<DeltaOp>"), ("Delta", "basis_size"): ("(d_basis_size _ {0})", "u64")},
@@ -2725,6 +2753,8 @@ def functions():
         ss = []
         it = iter(list(push[0][2][1]))
         for st in it:
+            if st[0] == "item":
+                continue
             if st[0] == "expr" and st[1] == ("path", ["use"]):
                 next(it, None)
                 continue
@@ -2901,7 +2931,7 @@ GROUPS = {
     "WireMagic": ("Model.Wire", False, ["read_magic"]),
     "WireFrame": ("Model.Wire", "wireframe", ["read_frame"]),
     "BisyncApply": ("", "bisync", ["apply"]),
-    "ConflictName": ("", "conflictname", ["short_hex", "short_hash", "loser_name", "hub_conflict_name"]),
+    "ConflictName": ("", "conflictname", ["short_hex", "short_hash", "loser_name", "hub_conflict_name", "staging_name"]),
     "HubDelete": ("", "hubseq", ["handle_delete", "handle_put", "handle_get"]),
     "BisyncRun": ("", "bisyncrun", ["run_bisync"]),
     "HubSync": ("", "hubsync", ["hub_sync"]),
@@ -3085,7 +3115,10 @@ def main():
                      + "\n".join(texts))
         elif digest == "conflictname":
             body = (HEADER % (group, "")).replace(" .\n", ".\n") + ("\n(* `{b:02x}`: two lower-case hexadecimal digits of a byte *)\n"
-                    "Definition hexd (n : Z) : Z := if n <? 10 then 48 + n else 87 + n.\nDefinition hex2 (b : Z) : list Z := [hexd (b / 16); hexd (b mod 16)].\n\n" + "\n".join(texts))
+                    "Definition hexd (n : Z) : Z := if n <? 10 then 48 + n else 87 + n.\nDefinition hex2 (b : Z) : list Z := [hexd (b / 16); hexd (b mod 16)].\n"
+                    "(* `{}` of an unsigned integer: decimal digits; `{:x}`: lower-case hexadecimal digits - most significant first, `0` for zero *)\n"
+                    "Fixpoint digits_aux (base : Z) (fuel : nat) (n : Z) (acc : list Z) : list Z :=\n  match fuel with O => acc | S f => let acc' := hexd (n mod base) :: acc in if n / base =? 0 then acc' else digits_aux base f (n / base) acc' end.\n"
+                    "Definition dec (n : Z) : list Z := digits_aux 10 (S (Z.to_nat (Z.log2 n))) n [].\nDefinition hexz (n : Z) : list Z := digits_aux 16 (S (Z.to_nat (Z.log2 n))) n [].\n\n" + "\n".join(texts))
         elif digest == "sigtable":
             body += ("\nSection WithDigest.\nVariable digest : Type.\nVariable H : list Z -> digest.\nVariable deq : forall x y : digest, {x = y} + {x <> y}.\n"
                      "Definition digest_eqb (x y : digest) : bool := if deq x y then true else false.\n"
